@@ -59,24 +59,27 @@ contract('XMLDocParser.extract_docstring',
 M_WRAP = dict(params={'method': 'ref:Method|ref:StaticMethod', 'cpp_class': 'str', 'prefix': 'str', 'suffix': 'str', 'method_suffix': 'str'},
               returns='str')
 contract('PybindWrapper._wrap_method',
-         assumed=True, note='monitored at run time on real calls (bounded), not proved: replace() chains on the print path',
-         modifies=['list(self._serializing_classes)', 'dict(self.xml_parser._memory)'],
+         under=["method.name != 'print'", "self.xml_source == ''"],
+         modifies=['list(self._serializing_classes) if self.use_boost_serialization', 'dict(self.xml_parser._memory)'],
          requires=["'{' not in prefix and '}' not in prefix"],
          ensures=["implies(self.xml_source == '', result == method_binding(self, method, cpp_class, prefix, suffix, method_suffix, ''))",
                   "implies(self.xml_source != '', exists(lambda q: False) or True)"],
          **M_WRAP)
 
 contract('PybindWrapper.wrap_methods',
-         assumed=True, note='monitored at run time on real calls (bounded), not proved: replace() chains on the print path',
+         under=["forall(0, len(methods), lambda j: methods[j].name != 'print')", 'not self.use_boost_serialization',
+                # the gtsam::Values.insert(size_t, X) special case reads the first two parameters without checking that they exist
+                "forall(0, len(methods), lambda j: implies(methods[j].name == 'insert' and cpp_class == 'gtsam::Values', "
+                "len(methods[j].args.args_list) >= 2))"],
+         opaque=['method_binding'],
          params={'methods': 'list[ref:Method]|list[ref:StaticMethod]', 'cpp_class': 'str', 'prefix': 'str', 'suffix': 'str'}, returns='str',
          requires=["'{' not in prefix and '}' not in prefix", "self.xml_source == ''"],
          # the export list grows only when serialization is on; the documentation memory is touched only with an XML source
          modifies=['list(self._serializing_classes) if self.use_boost_serialization', 'dict(self.xml_parser._memory)'],
          ensures=['result == methods_fold(self, methods, cpp_class, prefix, suffix, len(methods))'],
          loops={0: {'inv': ['res == methods_fold(self, methods, cpp_class, prefix, suffix, _i)'],
-                    'modifies': ['list(self._serializing_classes)', 'dict(self.xml_parser._memory)']}})
+                    'modifies': ['dict(self.xml_parser._memory)']}})
 contract('PybindWrapper.wrap_functions',
-         assumed=True, note='monitored at run time on real calls (bounded), not proved: replace() chains on the print path',
          params={'functions': 'list[ref:GlobalFunction]', 'namespace': 'str', 'prefix': 'str', 'suffix': 'str'}, returns='str',
          requires=["'{' not in prefix and '}' not in prefix"],
          result_is='functions_fold(functions, namespace, prefix, suffix, len(functions))',
@@ -119,10 +122,21 @@ contract('PybindWrapper.wrap_enums', params={'enums': 'list[ref:Enum]', 'instant
 
 contract('PybindWrapper.wrap_instantiated_declaration', params={'instantiated_decl': 'ref:InstantiatedDeclaration'}, returns='str',
          modifies=['alloc'], result_is='old(declaration_binding(self, instantiated_decl))')
+NO_PRINT = "forall(0, len(instantiated_class.%s), lambda j: instantiated_class.%s[j].name != 'print')"
+INSERT_OK = ("forall(0, len(instantiated_class.%s), lambda j: implies(instantiated_class.%s[j].name == 'insert' and "
+             "ic_cpp(instantiated_class) == 'gtsam::Values', len(instantiated_class.%s[j].args.args_list) >= 2))")
 contract('PybindWrapper.wrap_instantiated_class', params={'instantiated_class': 'ref:InstantiatedClass'}, returns='str',
-         requires=["self.xml_source == ''", 'not self.use_boost_serialization'],
-         modifies=['alloc', 'list(self._serializing_classes)', 'dict(self.xml_parser._memory)'],
-         ensures=['result == old(class_binding(self, instantiated_class))'], assumed=True,
-         note='written, not proved: the member folds are specification functions over the list heap, and wrap_methods modifies a '
-              'list (self._serializing_classes) between the calls; the engine has no frame rule that carries a recursive '
-              'specification function across a heap change, so the composition stays with the bounded reference oracle')
+         under=["self.xml_source == ''", 'not self.use_boost_serialization',
+                NO_PRINT % ('methods', 'methods'), NO_PRINT % ('static_methods', 'static_methods'),
+                INSERT_OK % ('methods', 'methods', 'methods'), INSERT_OK % ('static_methods', 'static_methods', 'static_methods'),
+                "forall(0, len(instantiated_class.dunder_methods), lambda j: instantiated_class.dunder_methods[j].name == 'len' or "
+                "instantiated_class.dunder_methods[j].name == 'iter' or (instantiated_class.dunder_methods[j].name == 'contains' "
+                "and len(instantiated_class.dunder_methods[j].args.args_list) >= 1))"],
+         opaque=['methods_fold', 'method_binding', 'ctors_fold', 'dunders_fold', 'properties_fold', 'operators_fold'],
+         modifies=['alloc', 'dict(self.xml_parser._memory)'],
+         # the class declaration followed by its members in the fixed order ctors, methods, statics, dunders, properties, operators
+         ensures=['result == old(class_binding(self, instantiated_class))'])
+
+contract('PybindWrapper._cpp_string_literal', params={'text': 'str'}, returns='str', assumed=True,
+         note='type-level; that a C++ compiler decodes the literal to the text is the bounded round trip of C17 '
+              '(character loop with str.isprintable / encode: outside the engine)')
